@@ -458,6 +458,33 @@ def run(F, R, tier):
                    "%s on the computed %s map: a declared privilege (or its computed assignments) is dropped from the rule set, so a URL "
                    "it matches falls through to defaultAccess instead of 'matched, nobody assigned => deny' (is_allowed relies on every "
                    "declared privilege being present)" % (q.base_name(w).rsplit("::", 1)[-1], "privileges" if "Privilege" in val else "assignments"))
+        # ... and nothing declared is left out on the way in: the iterator chain collected into the privileges map has no
+        # selecting adaptor (filter / filter_map / take / skip / .. ) between the host's list and collect()
+        SELECT = {"filter", "filter_map", "take", "skip", "take_while", "skip_while", "step_by", "map_while"}
+        n_chain = 0
+        for bi, w, r, t in B.calls_named("Iterator::collect"):
+            tys = [g.get("ty", "") for g in t["f"].get("fnargs", [])]
+            if not any(x.startswith("std::collections::HashMap<") and "Privilege" in x.split(",", 1)[-1] for x in tys):
+                continue
+            n_chain += 1
+            cur, hops, sel_ = (t["args"][0] if t["args"] else None), 0, []
+            while cur is not None and cur.get("k") in ("copy", "move") and hops < 12:
+                hops += 1
+                d = B.single_def(cur["p"]["l"])
+                if d and d[2] == "assign" and d[3]["rv"]["k"] == "use" and not d[3]["lhs"]["p"]:
+                    cur = d[3]["rv"]["o"]
+                    continue
+                if not d or d[2] != "call":
+                    break
+                w_, r_ = mir.callee_of(d[3])
+                short_ = q.base_name(w_ or "").rsplit("::", 1)[-1]
+                if short_ in SELECT:
+                    sel_.append(short_)
+                cur = d[3]["args"][0] if d[3]["args"] else None
+            R.check(not sel_, "C02.R8", R.key("C02.R8", fa_["id"], "every-declared-privilege-collected"), q.where(B, bi),
+                    "the chain collected into the privileges map has no selecting adaptor (%d adaptor(s) walked)" % hops,
+                    "the privileges map is collected through %s: a declared privilege can be left out of the computed rule set, a URL it "
+                    "matches then falls through to defaultAccess" % sel_)
         R.check(n_rm == 0, "C02.R8", R.key("C02.R8", fa_["id"], "computed-maps-only-grow"), "%s:%s" % (fa_["file"], fa_["line"]),
                 "no retain / remove / clear / drain on the computed privileges and assignments maps in from_authorization_item",
                 "%d removal call(s) on the computed privileges / assignments maps" % n_rm)
